@@ -47,6 +47,9 @@ var (
 	root     = flag.String("root", "", "root of the scratch copy (module src.elv.sh)")
 	hbSpec   = flag.String("hb", "", "comma separated designated state: pkgpath.Type.field or maptype:<type string>")
 	verbose  = flag.Bool("v", false, "verbose")
+	replSpec = flag.String("replace", "", "semicolon separated: pkgpath:from=To,from=To (from: pkg.Func or pkg.Type.Method; To: function of simrt)")
+
+	replaceTable = map[string]map[string]string{}
 	warnings int
 	counts   = map[string]int{}
 )
@@ -90,6 +93,25 @@ func main() {
 		return os.Open(p.Export)
 	})
 	parseHB()
+	for _, part := range strings.Split(*replSpec, ";") {
+		part = strings.TrimSpace(part)
+		if part == "" {
+			continue
+		}
+		i := strings.Index(part, ":")
+		if i < 0 {
+			fatalf("bad -replace entry %q", part)
+		}
+		tbl := map[string]string{}
+		for _, kv := range strings.Split(part[i+1:], ",") {
+			j := strings.Index(kv, "=")
+			if j < 0 {
+				fatalf("bad -replace entry %q", kv)
+			}
+			tbl[strings.TrimSpace(kv[:j])] = strings.TrimSpace(kv[j+1:])
+		}
+		replaceTable[part[:i]] = tbl
+	}
 	for _, t := range targets {
 		p := pkgs[t]
 		if p == nil {
@@ -201,7 +223,7 @@ func rewritePackage(fset *token.FileSet, imp types.Importer, p *listPkg) {
 		if !importsPath(af, simPkgPath) {
 			astutil.AddNamedImport(fset, af, "simrt", simPkgPath)
 		}
-		removeUnusedImports(af)
+		removeUnusedImports(fset, af)
 		var buf bytes.Buffer
 		if err := format.Node(&buf, fset, af); err != nil {
 			fatalf("print %s: %v", names[i], err)
@@ -272,7 +294,7 @@ func directiveOnly(cg *ast.CommentGroup) *ast.CommentGroup {
 	return &ast.CommentGroup{List: lines}
 }
 
-func removeUnusedImports(f *ast.File) {
+func removeUnusedImports(fset *token.FileSet, f *ast.File) {
 	usedNames := map[string]bool{}
 	ast.Inspect(f, func(n ast.Node) bool {
 		if se, ok := n.(*ast.SelectorExpr); ok {
@@ -282,7 +304,10 @@ func removeUnusedImports(f *ast.File) {
 		}
 		return true
 	})
-	for _, is := range f.Imports {
+	for _, is := range append([]*ast.ImportSpec(nil), f.Imports...) {
+		if is == nil || is.Path == nil {
+			continue
+		}
 		path, _ := strconv.Unquote(is.Path.Value)
 		name := ""
 		if is.Name != nil {
@@ -296,9 +321,9 @@ func removeUnusedImports(f *ast.File) {
 		}
 		if !usedNames[name] && isStd(path) {
 			if is.Name != nil {
-				astutil.DeleteNamedImport(token.NewFileSet(), f, is.Name.Name, path)
+				astutil.DeleteNamedImport(fset, f, is.Name.Name, path)
 			} else {
-				astutil.DeleteImport(token.NewFileSet(), f, path)
+				astutil.DeleteImport(fset, f, path)
 			}
 		}
 	}
@@ -909,7 +934,52 @@ func (rw *rewriter) selectStmt(n *ast.SelectStmt) ast.Stmt {
 }
 
 // callExpr handles sync / atomic / semaphore / context / os calls.
+// replaceCall applies the -replace table: calls of listed package functions
+// (net.Listen=NetListen) and methods (os.Process.Signal=ProcSignal, receiver
+// becomes the first argument) in the listed package are routed to simrt.
+func (rw *rewriter) replaceCall(c *astutil.Cursor, call *ast.CallExpr) bool {
+	tbl := replaceTable[rw.pkg.Path()]
+	if tbl == nil {
+		return false
+	}
+	se, ok := call.Fun.(*ast.SelectorExpr)
+	if !ok {
+		return false
+	}
+	if id, ok := se.X.(*ast.Ident); ok {
+		if pn, ok := rw.info.Uses[id].(*types.PkgName); ok {
+			if to := tbl[pn.Imported().Path()+"."+se.Sel.Name]; to != "" {
+				rw.used = true
+				counts["replace"]++
+				c.Replace(&ast.CallExpr{Fun: &ast.SelectorExpr{X: ast.NewIdent("simrt"), Sel: ast.NewIdent(to)}, Args: call.Args, Ellipsis: call.Ellipsis})
+				return true
+			}
+			return false
+		}
+	}
+	if sel := rw.info.Selections[se]; sel != nil && sel.Kind() == types.MethodVal {
+		fn := sel.Obj().(*types.Func)
+		rt := fn.Type().(*types.Signature).Recv().Type()
+		if p, ok := rt.(*types.Pointer); ok {
+			rt = p.Elem()
+		}
+		if n, ok := types.Unalias(rt).(*types.Named); ok && n.Obj().Pkg() != nil {
+			if to := tbl[n.Obj().Pkg().Path()+"."+n.Obj().Name()+"."+fn.Name()]; to != "" {
+				rw.used = true
+				counts["replace"]++
+				args := append([]ast.Expr{se.X}, call.Args...)
+				c.Replace(&ast.CallExpr{Fun: &ast.SelectorExpr{X: ast.NewIdent("simrt"), Sel: ast.NewIdent(to)}, Args: args, Ellipsis: call.Ellipsis})
+				return true
+			}
+		}
+	}
+	return false
+}
+
 func (rw *rewriter) callExpr(c *astutil.Cursor, call *ast.CallExpr) {
+	if rw.replaceCall(c, call) {
+		return
+	}
 	// os.Pipe()
 	if se, ok := call.Fun.(*ast.SelectorExpr); ok {
 		if id, ok := se.X.(*ast.Ident); ok {
